@@ -450,6 +450,8 @@ func (w *vpWorld) symbolicPreState() {
 		lbOpts, partsOpts = []int8{cNone}, 1
 	case vpSliceLockFocus, vpSliceLockFocusTop:
 		lbOpts, vbOpts, pbOpts, partsOpts = []int8{cA}, []int8{cA}, []int8{cNone, cA}, 1
+	case vpSlicePolProposal:
+		lbOpts, vbOpts, pbOpts, partsOpts = []int8{cNone}, []int8{cNone}, []int8{cA}, 1
 	}
 	if lb := pick("LockedBlock", lbOpts); lb != cNone {
 		cs.LockedBlock, cs.LockedBlockParts = w.blocks[lb].block, w.blocks[lb].parts
@@ -472,6 +474,9 @@ func (w *vpWorld) symbolicPreState() {
 	ppOpts := []int8{cNone, cA}
 	if w.slice == vpSliceLockFocus || w.slice == vpSliceLockFocusTop {
 		ppOpts = []int8{cNone}
+	}
+	if w.slice == vpSlicePolProposal {
+		ppOpts = []int8{cA}
 	}
 	if pp := pick("Proposal", ppOpts); pp != cNone {
 		pol := vp.Int32("Proposal.POLRound")
@@ -827,6 +832,10 @@ const (
 	vpSliceUnlocked  = 2 // not locked; any valid block; proposal block none/A/B/C; votes of the current height for nil/A/B
 	vpSliceLockFocus = 3 // locked on A, valid block A, proposal block none/A, no proposal message; votes of the current height for nil/A/B
 )
+
+const vpSlicePolProposal = 5 // not locked, no valid block, complete proposal block A with its proposal message (any POL round); votes of the current height for nil/A/B
+
+func VP_C02_Step_R1_vote_polproposal() { vpC02Step(1, 0, vpSlicePolProposal) }
 
 const vpSliceLockFocusTop = 4 // as vpSliceLockFocus, and the node is in the highest modelled round
 
